@@ -216,6 +216,13 @@ func (v *Verifier) verifyOne(b *Block, bd map[string]int64, variant int) (tr *Ta
 			for _, n := range strings.FieldsFunc(c.Text, func(r rune) bool { return r == ',' || r == ' ' }) {
 				ex.forceInline[n] = true
 			}
+		case "uninterpreted":
+			for _, n := range strings.FieldsFunc(c.Text, func(r rune) bool { return r == ',' || r == ' ' }) {
+				if ex.uninterp == nil {
+					ex.uninterp = map[string]bool{}
+				}
+				ex.uninterp[n] = true
+			}
 		case "reveal":
 			for _, n := range strings.FieldsFunc(c.Text, func(r rune) bool { return r == ',' || r == ' ' }) {
 				ex.revealed[n] = true
@@ -252,10 +259,10 @@ func (v *Verifier) verifyOne(b *Block, bd map[string]int64, variant int) (tr *Ta
 			g := ex.inline(clauseFn2(v, b, c), nil, pk, nil, recv, args, st, &ast.CallExpr{}).(*Term)
 			ex.suppress--
 			ex.assume(st, g)
-			if v.prog.Axioms[b.PkgName+"."+c.ID] {
+			if v.prog.Axioms[lemmaKey(b.PkgName, c.ID)] {
 				ex.assumptions["AXIOM "+b.PkgName+"."+c.ID+" (assumed, see the contract file)"] = true
 			} else {
-				ex.usedContracts["lemma "+b.PkgName+"."+c.ID] = true
+				ex.usedContracts["lemma "+lemmaKey(b.PkgName, c.ID)] = true
 			}
 		}
 	}
